@@ -81,7 +81,8 @@ def run_isolated(sid, ids, tier):
             print(f"{sid}: PATCH DOES NOT APPLY to current HEAD: {out.strip()[:200]}")
             return
         vcopy = tempfile.mkdtemp(prefix="mutv_", dir="/tmp")
-        sh(f"cp -r {VERIF}/check {VERIF}/checks {VERIF}/harness {VERIF}/specs {VERIF}/known_findings.json {vcopy}/ && mkdir -p {vcopy}/evidence {vcopy}/replays")
+        src = os.environ.get("VERIF_FROZEN", VERIF)      # a frozen copy of /verif, so that edits made during a long regression do not leak in
+        sh(f"cp -r {src}/check {src}/checks {src}/harness {src}/specs {src}/known_findings.json {vcopy}/ && mkdir -p {vcopy}/evidence {vcopy}/replays")
         for pid in ids:
             env = dict(os.environ, VERIF_REPO=wt)
             rc, out = sh([os.path.join(vcopy, "check"), pid, "--tier", tier], cwd=vcopy, env=env, timeout=7200)
